@@ -1,7 +1,7 @@
 import QuinnModel.Lemmas.IndexOps
 /-
-C09 lemmas over histories: `Sound` along every run without a failed `connect`, routing correctness and
-completeness, nothing stale after `Drained`, slot reuse.
+C09 lemmas over histories: `Sound` along every run, routing correctness and completeness, nothing stale
+after `Drained`, slot reuse.
 -/
 namespace QM.Index
 
@@ -13,11 +13,6 @@ def Along (P : State → Op → Prop) : State → List Op → Prop
   | s, op :: ops => P s op ∧ match step s op with
     | some s' => Along P s' ops
     | none => True
-
-/-- the call is not a `connect` whose TLS `start_session` fails -/
-def NoFailedConnect (_ : State) : Op → Prop
-  | .connect _ _ tlsOk _ => tlsOk = true
-  | _ => True
 
 theorem along_mono {P Q : State → Op → Prop} (hpq : ∀ s op, P s op → Q s op) :
     ∀ {s : State} {ops : List Op}, Along P s ops → Along Q s ops := by
@@ -53,12 +48,9 @@ theorem inv_runFrom {P : State → Op → Prop} {Inv : State → Prop}
 
 /-! ### `Sound` along histories -/
 
-theorem sound_step {s s' : State} {op : Op} (hs : Sound s) (hp : NoFailedConnect s op)
-    (h : step s op = some s') : Sound s' := by
+theorem sound_step {s s' : State} {op : Op} (hs : Sound s) (h : step s op = some s') : Sound s' := by
   cases op with
   | connect r i t c =>
-    have ht : t = true := hp
-    subst ht
     simp only [step, Option.map_eq_some_iff] at h
     obtain ⟨⟨s1, res⟩, h1, rfl⟩ := h
     exact sound_connect hs h1
@@ -95,13 +87,17 @@ theorem sound_step {s s' : State} {op : Op} (hs : Sound s) (hp : NoFailedConnect
       simp only [Prod.mk.injEq] at h3; obtain ⟨rfl, -⟩ := h3
       exact sound_drained hs h2
 
-theorem sound_runFrom {ops : List Op} {s0 s : State} (h0 : Sound s0) (hal : Along NoFailedConnect s0 ops)
-    (hr : runFrom s0 ops = some s) : Sound s :=
-  inv_runFrom (fun _ _ _ hs hp h => sound_step hs hp h) h0 hal hr
+theorem along_true (s : State) (ops : List Op) : Along (fun _ _ => True) s ops := by
+  induction ops generalizing s with
+  | nil => trivial
+  | cons op ops ih => exact ⟨trivial, by split <;> first | exact ih _ | trivial⟩
+
+theorem sound_runFrom {ops : List Op} {s0 s : State} (h0 : Sound s0) (hr : runFrom s0 ops = some s) : Sound s :=
+  inv_runFrom (P := fun _ _ => True) (fun _ _ _ hs _ h => sound_step hs h) h0 (along_true _ _) hr
 
 theorem sound_run {cidLen : Nat} {pref : Bool} {ops : List Op} {s : State}
-    (hal : Along NoFailedConnect (init cidLen pref) ops) (hr : run cidLen pref ops = some s) : Sound s :=
-  sound_runFrom (sound_init cidLen pref) hal hr
+    (hr : run cidLen pref ops = some s) : Sound s :=
+  sound_runFrom (sound_init cidLen pref) hr
 
 /-! ### routing -/
 
